@@ -51,23 +51,23 @@ def regen(ctx):
     return True
 
 
-def extract_model(ctx):
+def extract_model(ctx, spec_only=False):
     """same steps as vlib.Ctx.extract, without -inline 100 (ocamlopt needs 100 s for the 1500 generated closures with it, 3 s without)"""
-    bdir = os.path.join(ctx.build, "ml")
+    bdir = os.path.join(ctx.build, "ml_spec" if spec_only else "ml")
     os.makedirs(bdir, exist_ok=True)
-    shutil.copy(os.path.join(ctx.coqdir, "Extract.v"), os.path.join(bdir, "DoExtract.v"))
+    shutil.copy(os.path.join(ctx.coqdir, "ExtractSpec.v" if spec_only else "Extract.v"), os.path.join(bdir, "DoExtract.v"))
     rc, o = vlib.sh(["coqc"] + vlib.coqproject_args(ctx.coqdir) + ["DoExtract.v"], cwd=bdir, timeout=600)
     if rc != 0:
-        ctx.log("extraction failed:\n" + o[-2000:])
-        ctx.broken.append("extraction Extract.v (an inventoried definition is missing from the regenerated model?)")
+        ctx.log("extraction failed:\n" + o[-1200:])
+        ctx.broken.append("extraction %s (an inventoried definition is missing from the regenerated model?)" % ("ExtractSpec.v" if spec_only else "Extract.v"))
         return None
     drv = os.path.join(bdir, "drv_driver.ml")
     with open(drv, "w") as f:
         f.write("open Model\n")
         for sn in ("conv_N.ml", "conv_Z.ml", "conv_nat.ml"):
             f.write(open(os.path.join(ctx.verif, "ocaml", "snippets", sn)).read() + "\n")
-        f.write(open(os.path.join(ctx.verif, "ocaml", ctx.pid, "driver.ml")).read())
-    exe = os.path.join(ctx.build, "model")
+        f.write(open(os.path.join(ctx.verif, "ocaml", ctx.pid, "driver_spec.ml" if spec_only else "driver.ml")).read())
+    exe = os.path.join(ctx.build, "model_spec" if spec_only else "model")
     rc, o = vlib.sh(["ocamlfind", "ocamlopt", "-w", "-a", "-o", exe, "Model.mli", "Model.ml", "drv_driver.ml"], cwd=bdir, timeout=600)
     if rc != 0:
         ctx.log("ocaml build failed:\n" + o[-2000:])
@@ -151,12 +151,15 @@ def operands(inv, e, r, variant):
         k = 0
         for i, n in lst:
             vals[i] = pool[k:k + n]; k += n
-    # comparisons need equal components as well: make b a copy of a that differs from position `variant` on (or nowhere)
-    if e["fam"] in ("compare", "less") and variant < 6:
+    # comparisons need equal components as well: variants 0..4: b is a copy of a that differs from position k on;
+    # 5..8: all components equal; 9..11: equal except for the last component
+    if e["fam"] in ("compare", "less") and variant < 12:
         a, b = vals[0], vals[1]
         n = len(a)
-        if variant == 5:
+        if 5 <= variant <= 8:
             vals[1] = list(a)
+        elif variant >= 9:
+            vals[1] = list(a[:n - 1]) + [b[n - 1]]
         else:
             k = variant % n
             vals[1] = list(a[:k]) + list(b[k:])
@@ -166,6 +169,28 @@ def operands(inv, e, r, variant):
     for i, (sh, t) in enumerate(e["args"]):
         toks += [fhex(v) if inv.ISFL[t] else str(v) for v in vals[i]]
     return toks
+
+
+PADPAT = ("0x00", "0xFF", "0xA5")
+PADFORM = ("component-wise constructor", "broadcast constructor followed by stores through operator[]", "copy from the unpadded vec_t<T,3>",
+           "pointer constructor", "copy of another padded vector followed by member stores")
+
+
+def pad_directive(v):
+    """how the PADDED operands (vec_t<T,3,true>) of case number v of an overload are built by harness/C04/tv.cpp: operand j is constructed by
+    placement-new into a buffer pre-filled with pattern (mode + j) % 3 (mode 3: the same pattern 0xA5 for all) through form (form + j) % 5"""
+    return v % 4, (v // 4) % 5
+
+
+def pad_text(inv, e, v):
+    mode, form = pad_directive(v)
+    out, j = [], 0
+    for i, (sh, t) in enumerate(e["args"]):
+        if sh == "3a":
+            out.append("%s: placement-new into a buffer pre-filled with %s, %s (padding_ slot holds %s)"
+                       % (inv.ARGN[i], PADPAT[2 if mode == 3 else (mode + j) % 3], PADFORM[(form + j) % 5], PADPAT[2 if mode == 3 else (mode + j) % 3]))
+            j += 1
+    return out
 
 
 def decode(tok, t):
@@ -196,7 +221,7 @@ def run(ctx):
     ok_gen = regen(ctx)
     mkprops.main.__globals__["print"] = lambda *a, **k: None
     files = mkprops.properties()
-    mkprops.spec_v(); mkprops.extract_v(); mkprops.driver_ml(); mkprops.tv_inc()
+    mkprops.spec_v(); mkprops.extract_v(); mkprops.extract_spec_v(); mkprops.driver_ml(); mkprops.tv_inc()
     prop_files = tuple(files) + ("Properties_instances.v",)
     ctx.coq_check(prop_files)
     ctx.log("coq: %d/%d obligations discharged" % (ctx.discharged, ctx.obligations))
@@ -205,6 +230,11 @@ def run(ctx):
     for e in inv.ENTRIES: fam[e["fam"]] = fam.get(e["fam"], 0) + 1
     ctx.cov["inventory_families"] = fam
     model = extract_model(ctx) if ok_gen else None
+    spec_only = None
+    if model is None:
+        # the regenerated model lost an inventoried definition (already recorded as broken): still run the real instantiations against the
+        # inventory's lifting terms, to report a concrete failing input
+        spec_only = extract_model(ctx, spec_only=True)
     ctx.log("model extracted and built")
     tvflags = ["-DRKCOMMON_NO_SIMD", "-ffp-contract=off"]
     jobs = [dict(sources=["tv.cpp"], out="tv%d" % k, sanitize="asan", flags=tvflags + ["-DTV_PART=%d" % k]) for k in range(mkprops.NPART)]
@@ -214,8 +244,8 @@ def run(ctx):
         exes = list(ex.map(lambda kw: ctx.cxx(**kw), jobs))
     tvs, oracles = exes[:mkprops.NPART], exes[mkprops.NPART:]
     ctx.log("harnesses built")
-    if model and all(tvs):
-        translation_validation(ctx, inv, mkprops, model, tvs)
+    if (model or spec_only) and all(tvs):
+        translation_validation(ctx, inv, mkprops, model, tvs, spec_only)
         ctx.log("translation validation done")
     if all(oracles):
         oracle_run(ctx, oracles)
@@ -223,7 +253,8 @@ def run(ctx):
     ctx.rule = ("translation validation: per inventoried overload, operand tuples whose components are pairwise distinct per element type, drawn from "
                 "{small multiples of 1/8, +-0, +-inf, FLT_MAX, FLT_MIN, 1e+-30, 2^24+1, 0.1, 1/3} for floats and from [-mag, mag] with the ends for "
                 "integers (mag chosen per operation so that no signed overflow occurs; uint8_t 0..255 with wrap-around on conversion back); comparison / "
-                "std::less cases with equal prefixes; oracle harness: see harness/C04/oracle.cpp. non-trivial = a case in which at least two components "
+                "std::less cases with equal prefixes / all components equal / equal except the last; every PADDED operand (vec_t<T,3,true>) is built by placement-new "
+                "into a buffer pre-filled with 0x00 / 0xFF / 0xA5 through 5 construction forms so that the padding slots of the operands differ (3 of 4 cases) or coincide; oracle harness: see harness/C04/oracle.cpp. non-trivial = a case in which at least two components "
                 "of the result differ (a component mix-up is observable) or, for comparisons, the operands share a proper prefix")
     ctx.trusted += ["tools/cxx2coq (clang 14 JSON AST -> Gallina) is trusted as a translator and validated on every run: the regenerated definitions, "
                     "extracted and run at the machine reading (Common.CxxSem.MZ for integers; binary32/binary64 for floats in ocaml/C04/driver.ml), agree with the "
@@ -241,15 +272,16 @@ def run(ctx):
         ctx.coq_thorough_chk(["C04.Properties_binary_vv", "C04.Properties_order", "C04.Properties_algebra", "C04.Properties_instances"])
 
 
-def translation_validation(ctx, inv, mkprops, model, tvs):
+def translation_validation(ctx, inv, mkprops, model, tvs, spec_only=None):
     r = ctx.rng("tv")
     per = ctx.pick(40, 400)
-    lines, meta = [], []
+    lines, meta, vnum = [], [], []
     for k, e in enumerate(inv.ENTRIES):
         for v in range(per):
             toks = operands(inv, e, r, v)
             lines.append(e["name"] + " " + " ".join(toks))
             meta.append((k, e))
+            vnum.append(v)
     # arg_max (hand model): all shapes, float / int / double, ties included
     for v in range(ctx.pick(200, 2000)):
         t = r.choice(("f", "i", "d"))
@@ -257,8 +289,12 @@ def translation_validation(ctx, inv, mkprops, model, tvs):
         pool = [r.randint(-5, 5) for _ in range(n)] if r.random() < 0.5 else r.sample(range(-50, 50), n)
         lines.append("arg_max %s %d %s" % (t, n, " ".join((fhex(float(x)) if t != "i" else str(x)) for x in pool)))
         meta.append((0, None))
-    rc, mlines, merr = vlib.run_lines(ctx, model, [], lines)
-    rc2, slines, serr = vlib.run_lines(ctx, model, ["spec"], lines)
+        vnum.append(0)
+    rc2, slines, serr = vlib.run_lines(ctx, model or spec_only, ["spec"], lines)
+    if model:
+        rc, mlines, merr = vlib.run_lines(ctx, model, [], lines)
+    else:
+        rc, mlines, merr = 0, [None] * len(lines), ""
     if rc != 0 or len(mlines) != len(lines) or rc2 != 0 or len(slines) != len(lines):
         ctx.broken.append("model driver failed rc=%s/%s lines=%d,%d/%d %s" % (rc, rc2, len(mlines), len(slines), len(lines), (merr + serr)[-300:]))
         return
@@ -266,11 +302,12 @@ def translation_validation(ctx, inv, mkprops, model, tvs):
     ilines = [None] * len(lines)
     for p, exe in enumerate(tvs):
         idx = [i for i, (k, e) in enumerate(meta) if k % mkprops.NPART == p]
-        rc, out, err = vlib.run_lines(ctx, exe, [], [lines[i] for i in idx])
+        # the harness additionally gets the padding directive of the case (the model has no padding slot: the value of the padded shape is x,y,z)
+        rc, out, err = vlib.run_lines(ctx, exe, [], [lines[i] + " #%d,%d" % pad_directive(vnum[i]) for i in idx])
         if rc != 0 or len(out) != len(idx):
             n = len(out)
             ctx.violation("tv harness part %d crashed (rc=%d): sanitizer report / abort in the real vec.h code" % (p, rc),
-                          {"stderr_tail": err[-3000:], "case": lines[idx[n]] if n < len(idx) else None, "required": "no crash, no sanitizer report"},
+                          {"stderr_tail": err[-3000:], "case": (lines[idx[n]] + " #%d,%d" % pad_directive(vnum[idx[n]])) if n < len(idx) else None, "required": "no crash, no sanitizer report"},
                           found_input=n < len(idx))
             return
         for i, l in zip(idx, out): ilines[i] = l
@@ -284,7 +321,7 @@ def translation_validation(ctx, inv, mkprops, model, tvs):
             want = "arg_max %d" % xs.index(max(xs))
             if il != want:
                 viol.setdefault("arg_max", {"case_line": l, "observed": il, "required": want + " (first index of a maximal component)", "model": ml})
-            elif ml != il:
+            elif ml is not None and ml != il:
                 corr.append("arg_max hand model vs template on '%s': impl=%r model=%r" % (l, il, ml))
             if len(set(xs)) < len(xs): ctx.nontriv(l)
             continue
@@ -294,12 +331,13 @@ def translation_validation(ctx, inv, mkprops, model, tvs):
             if e["name"] not in viol:
                 viol[e["name"]] = {"overload": e["name"], "cxx_call": e["cxx"], "family": e["fam"], "case_line": l,
                                    "operands": l.split()[1:], "observed": il, "required": sl,
+                                   "padded_operands_constructed_as": pad_text(inv, e, vnum[i]) or "no padded operand",
                                    "required_is": "the component-wise lifting of the scalar definition (inventory term spec_%s, machine reading)" % e["name"],
                                    "model_regenerated_from_this_tree": ml}
-        elif not ((ml == il) or (e["approx"] and close_enough(il, ml, e["ret"]))):
+        elif ml is not None and not ((ml == il) or (e["approx"] and close_enough(il, ml, e["ret"]))):
             corr.append("correspondence: regenerated %s vs real instantiation on '%s': impl=%r model=%r (impl satisfies the lifting)" % (e["name"], l, il, ml))
         out = il.split()[1:]
-        if (len(set(out)) > 1 and e["ret"] != "bool") or (e["fam"] in ("compare", "less") and (i % max(1, len(lines) // len(inv.ENTRIES))) < 6):
+        if (len(set(out)) > 1 and e["ret"] != "bool") or (e["fam"] in ("compare", "less") and vnum[i] < 12):
             ctx.nontriv(l)
     famidx = {f: i for i, f in enumerate(inv.FAMILIES)}
     order = sorted(viol.items(), key=lambda kv: (famidx.get(kv[1].get("family"), -1), kv[0]))     # primitive families first (likely root cause)
